@@ -69,7 +69,7 @@ def split_walks(res):
 OBSERVE = ("negotiate", "offerOnly")
 
 
-def walk_features(w):
+def walk_features(w, observe=OBSERVE):
     """What a history exercises, for selection: ordered pairs of calls, and pairs of calls followed
     (not necessarily at once) by a call that generates descriptions, each with who-made-it relative
     to the first call of the tuple."""
@@ -80,14 +80,14 @@ def walk_features(w):
             same_ij = ks[i][1] == ks[j][1]
             f.add((ks[i][0], ks[j][0], same_ij))
             for k in range(j + 1, len(ks)):
-                if ks[k][0] in OBSERVE:
+                if observe is None or ks[k][0] in observe:
                     f.add((ks[i][0], ks[j][0], ks[k][0], same_ij, ks[i][1] == ks[k][1]))
     return f
 
 
-def select_walks(walks, n, rng):
+def select_walks(walks, n, rng, observe=OBSERVE):
     """Greedy cover: keep the histories that add most not-yet-seen features, then fill up at random."""
-    feats = [walk_features(w) for w in walks]
+    feats = [walk_features(w, observe) for w in walks]
     order = list(range(len(walks)))
     rng.shuffle(order)
     # lazy greedy: gains only shrink, so a stale entry whose re-computed gain still tops the heap is the best
